@@ -14,6 +14,10 @@ open GoUtils GoUtils.Streamer
 
 theorem C18_facts_extracted : Generated.Streamer.ok = true := by decide
 
+/-- nothing in package subprocess sets a `WaitDelay`: Wait (hence Execute) returns only when both streams have been copied to
+    their end, so output still on its way when the child exits is not cut off -/
+theorem C18_waits_for_the_whole_output : Generated.Streamer.exec.waitsForTheWholeOutput = true := by decide
+
 /-- FULL statement (lines clause): for every stream and EVERY way the pipe reads cut it into
     chunks, the messages logged are exactly the non-empty lines of the whole stream, in order. -/
 def C18_LinesStatement (f : WriteFacts) : Prop :=
